@@ -3,7 +3,7 @@ CONSTANTS
   LW = 5
   CW = 6
   MaxRows = 2
-  DPc1 = {1, 16, 5000, 20001}
+  DPc1 = {1, 20001}
   DLine1 <- WideDL
   DCol1 <- WideDC
   DPc2 = {16}
